@@ -329,7 +329,8 @@ def reason_of(fr):
     return 'children-without-records'
 
 
-def oracle(src, code_obj, module, dbg_mem, idmap, decoded, do_run, script, max_ticks, tags):
+def oracle(src, code_obj, module, dbg_mem, idmap, decoded, do_run, script, max_ticks, tags,
+           src2=None, di2=None):
     """property checks on the real artefacts.  Returns a list of failures
     {'sig': signature, ...detail}.  [module] is the parsed module (debug info
     went through pickle), [dbg_mem] the in-memory DebugInfo with node identity."""
@@ -471,16 +472,73 @@ def oracle(src, code_obj, module, dbg_mem, idmap, decoded, do_run, script, max_t
         if r0 is not found.get(main_frame):
             fail('C11/find_stmt-at-0-differs-from-call-target')
 
+    # T tabs.  pyparsing expands tabs before parsing a line, so on a line that
+    # holds a tab the unchanged code records locations in tab-expanded
+    # coordinates.  [src2] is the same program with every line tab-expanded:
+    # if every record of the tabbed program sits at the same in-line position as
+    # the corresponding record of src2, the location failures are that one
+    # defect (one signature), and lines / extracts are judged on src2.
+    view = {}
+    tabmode = False
+    if src2 is not None:
+        def starts(text):
+            out = [0]
+            for i, ch in enumerate(text):
+                if ch == '\n':
+                    out.append(i + 1)
+            return out
+        st1, st2 = starts(src), starts(src2)
+        recs2 = list(di2.stmts)
+        pairs = list(zip(recs, recs2))
+        ok = len(recs) == len(recs2) and sorted(di.routines) == sorted(di2.routines)
+        if ok:
+            pairs += [(di.routines[k], di2.routines[k]) for k in di.routines]
+            for r, q in pairs:
+                if q.source_start_offset is None or r.source_start_offset is None or \
+                        cname(r.node) != cname(q.node):
+                    ok = False
+                    break
+                i = src2.count('\n', 0, q.source_start_offset)
+                ie = src2.count('\n', 0, max(q.source_end_offset - 1, q.source_start_offset))
+                if r.source_start_offset - st1[i] != q.source_start_offset - st2[i] or \
+                        r.source_end_offset - st1[ie] != q.source_end_offset - st2[ie]:
+                    ok = False
+                    break
+        if ok:
+            tabmode = True
+            bad_line = bad_text = False
+            for r, q in pairs:
+                view[id(r)] = (q.source_start_line, src2[q.source_start_offset:q.source_end_offset])
+                if r.source_start_line != q.source_start_line:
+                    bad_line = True
+                a_ = ' '.join(src[r.source_start_offset:r.source_end_offset].split())
+                b_ = ' '.join(src2[q.source_start_offset:q.source_end_offset].split())
+                if a_ != b_:
+                    bad_text = True
+            if bad_line:
+                fail('C11/locations-in-tab-expanded-coordinates(line)')
+            elif bad_text:
+                fail('C11/locations-in-tab-expanded-coordinates(extract)')
+
+    def line_of(r):
+        return view[id(r)][0] if id(r) in view else r.source_start_line
+
+    def text_of(r):
+        return view[id(r)][1] if id(r) in view else src[r.source_start_offset:r.source_end_offset]
+
     # O6 recorded line / extract of every record, against the source text
-    for r in recs + list(di.routines.values()):
+    o6_src = src2 if tabmode else src
+    o6_recs = (list(di2.stmts) + list(di2.routines.values())) if tabmode else \
+        (recs + list(di.routines.values()))
+    for r in o6_recs:
         s, e = r.source_start_offset, r.source_end_offset
-        if s is None or e is None or not (0 <= s < e <= len(src)):
+        if s is None or e is None or not (0 <= s < e <= len(o6_src)):
             fail(f'C11/source-offsets-invalid({cname(r.node)})', rec=[s, e])
             continue
-        line = src.count('\n', 0, s) + 1
+        line = o6_src.count('\n', 0, s) + 1
         if r.source_start_line != line:
             fail(f'C11/recorded-line-wrong({cname(r.node)})', recorded=r.source_start_line, real=line)
-        text = src[s:e]
+        text = o6_src[s:e]
         if isinstance(r.node, Block):
             continue          # routine records span the whole SUB ... END SUB text
         if '\n' in text:
@@ -591,6 +649,17 @@ def oracle(src, code_obj, module, dbg_mem, idmap, decoded, do_run, script, max_t
                 fail(f'C11/io-attributed-to-wrong-statement({dev}.{opn}->{cname(r.node)})', off=d[0])
             stats['io_checked'] = stats.get('io_checked', 0) + 1
 
+    # L literals: every push of a number 90000..99999 (the generators' tags),
+    # with the statement the lookup gives for it
+    lits = []
+    for d in decoded:
+        if d[1].startswith('push') and d[2] and isinstance(d[2][0], int) and 90000 <= d[2][0] <= 99999:
+            r = found.get(d[0])
+            lits.append({'off': d[0], 'val': d[2][0],
+                         'line': None if r is None else line_of(r),
+                         'extract': None if r is None else text_of(r),
+                         'cls': None if r is None else cname(r.node)})
+
     # R run: find_stmt(pc) at every io instruction and at trapped_addr
     obs = []
     trap = None
@@ -616,9 +685,8 @@ def oracle(src, code_obj, module, dbg_mem, idmap, decoded, do_run, script, max_t
                         if e[0] == 'terminal_print':
                             text = (text or '') + ''.join(chr(c) for c in e[1])
                     obs.append({'pc': pc, 'dev': dev, 'op': opn, 'text': text,
-                                'line': None if r is None else r.source_start_line,
-                                'extract': None if r is None else
-                                src[r.source_start_offset:r.source_end_offset],
+                                'line': None if r is None else line_of(r),
+                                'extract': None if r is None else text_of(r),
                                 'cls': None if r is None else cname(r.node)})
                     if r is None:
                         fail(f'C11/io-without-statement({dev}.{opn})', pc=pc)
@@ -637,14 +705,13 @@ def oracle(src, code_obj, module, dbg_mem, idmap, decoded, do_run, script, max_t
             def desc(r):
                 if r is None:
                     return {'line': None, 'extract': None, 'cls': None}
-                return {'line': r.source_start_line, 'cls': cname(r.node),
-                        'extract': src[r.source_start_offset:r.source_end_offset]}
+                return {'line': line_of(r), 'cls': cname(r.node), 'extract': text_of(r)}
             trap = {'trapped_addr': ta, 'fault_addr': fa,
                     'trap': cpu.last_trap.name if cpu.last_trap else None,
                     'at_trapped_addr': desc(rt), 'at_fault_addr': desc(rf)}
             if rf is None and fa in body_offs and fa not in uncovered:
                 fail('C11/trap-without-statement', addr=fa)
-    return fails, stats, obs, trap
+    return fails, stats, obs, trap, lits, tabmode
 
 
 def compile_case(case):
@@ -669,12 +736,17 @@ def compile_case(case):
         'others': [[idmap.of(r.node), r.start_offset, r.end_offset] for r in dbg_mem.other_nodes],
         'size': len(module.code),
     }
-    fails, stats, obs, trap = oracle(src, code_obj, module, dbg_mem, idmap, decoded,
-                                     case.get('run', False), case.get('script', ()),
-                                     case.get('max_ticks', 20000), case.get('tags'))
+    src2 = di2 = None
+    if '\t' in src:
+        src2 = '\n'.join(l.expandtabs(8) for l in src.split('\n'))
+        di2 = QModule.parse(bytes(compile_src(src2, case.get('level', 0), True))).debug_info
+    fails, stats, obs, trap, lits, tabmode = oracle(
+        src, code_obj, module, dbg_mem, idmap, decoded, case.get('run', False),
+        case.get('script', ()), case.get('max_ticks', 20000), case.get('tags'), src2, di2)
     kinds = sorted({cname(r.node) for r in dbg_mem.stmts})
     return {'items': items, 'real': real, 'fails': fails, 'stats': stats, 'obs': obs,
-            'trap': trap, 'kinds': kinds}
+            'trap': trap, 'kinds': kinds, 'lits': lits,
+            'src_view': src2 if tabmode else src}
 
 
 def any_case(case):
